@@ -1574,3 +1574,38 @@ def named_initial_state_rule(ctx, rid):
     ctx.ob(rid, f'{sb.qual}._create_simulation_state:product-state-order', ok, '' if ok else
            f'a ProductState passed as `{st}` reaches the state factories without being written in the order of `{qb}`: with a qubit_order that is not the sorted one every qubit starts in '
            'another qubit\'s state', sb.mod.rel, fn.lineno)
+
+
+def confusion_key_positions_rule(ctx, rid):
+    """A confusion-map key is a tuple of positions; consumers use it position by position."""
+    repo = ctx.repo
+    ctx.decided.append(f'{rid} every consumer of confusion_map.items() uses the key tuple position by position (iteration / len / as a whole), never through one picked element or a slice')
+    ctx.rule(rid, 'confusion-map keys name arbitrary positions of the measurement: wherever `<..>confusion_map.items()` is iterated, the key variable is only iterated, measured with len(), '
+             'or passed on whole - a subscript `key[0]` / `key[a:b]` (or a slice of the measured digits built from it) treats the key as a contiguous ascending run, which scrambles '
+             'the recorded digits of every other key shape', floor=4, style='EFF')
+    n = 0
+    for mod, ci, fn in repo.all_functions():
+        if mod.rel.endswith('_test.py'):
+            continue
+        sites = []
+        for node in ast.walk(fn):
+            gens = []
+            if isinstance(node, ast.For):
+                gens.append((node.target, node.iter, node.body))
+            elif isinstance(node, (ast.ListComp, ast.SetComp, ast.GeneratorExp, ast.DictComp)):
+                for g in node.generators:
+                    gens.append((g.target, g.iter, [node]))
+            for tgt, it, body in gens:
+                if not (isinstance(it, ast.Call) and isinstance(it.func, ast.Attribute) and it.func.attr == 'items' and 'confusion_map' in ast.unparse(it.func.value).split('.')[-1]):
+                    continue
+                if not (isinstance(tgt, ast.Tuple) and len(tgt.elts) == 2 and isinstance(tgt.elts[0], ast.Name)):
+                    continue
+                sites.append((tgt.elts[0].id, body, node))
+        for key, body, node in sites:
+            n += 1
+            bad = [x for s in body for x in ast.walk(s) if isinstance(x, ast.Subscript) and isinstance(x.value, ast.Name) and x.value.id == key
+                   and (isinstance(x.slice, (ast.Slice, ast.Constant)) or (isinstance(x.slice, ast.UnaryOp) and isinstance(x.slice.operand, ast.Constant)))]
+            k = f'{mod.name}.{(ci.name + ".") if ci else ""}{fn.name}:{key}@{sum(1 for a, _, _ in sites[:sites.index((key, body, node))] if a == key)}'
+            ctx.ob(rid, k, not bad, f'`{ast.unparse(bad[0])}` picks one position of the key: the other positions are assumed, not read' if bad else '', mod.rel, node.lineno)
+    if n == 0:
+        raise AnalysisError('no consumer of confusion_map.items() found')
